@@ -208,3 +208,34 @@ M("c15-stale-file-kept", "C15", ("pyramid.py", "            try:\n              
 M("c15-rgb-alpha", "C15", ("image.py", "            sub_b[..., :3] = sub_i\n            sub_b[..., 3] = 255", "            sub_b[..., :3] = sub_i\n            sub_b[..., 3] = np.maximum(sub_b[..., 3], 254)"))
 M("c15-read-default-swallow", "C15", ("pyramid.py", "                raise ValueError('unexpected value for \"default\": {!r}'.format(default))", "                return None"))
 M("c15-int-replace", "C15", ("image.py", "            np.maximum(sub_b, sub_i, out=sub_b)", "            np.putmask(sub_b, sub_i != 0, sub_i)"))
+
+# ---- C09
+M("c09-flip-formula", "C09", ("multi_tan.py", """            if tile_parity_sign == 1:
+                image_y = image.height - (image_y + height)
+                tile_y = 256 - (tile_y + height)
+
+            ix_idx = slice(image_x, image_x + width)
+            bx_idx = slice(tile_x, tile_x + width)
+            iy_idx = slice(image_y, image_y + height)
+            by_idx = slice(tile_y, tile_y + height)
+
+            with pio.update_image(
+                pos, masked_mode=image.mode, default="masked"
+            ) as basis:
+                image.update_into_maskable_buffer(basis, iy_idx, ix_idx, by_idx, bx_idx)""", """            if tile_parity_sign == 1:
+                image_y = image.height - (image_y + height)
+                tile_y = 255 - (tile_y + height)
+
+            ix_idx = slice(image_x, image_x + width)
+            bx_idx = slice(tile_x, tile_x + width)
+            iy_idx = slice(image_y, image_y + height)
+            by_idx = slice(max(tile_y, 0), max(tile_y, 0) + height)
+
+            with pio.update_image(
+                pos, masked_mode=image.mode, default="masked"
+            ) as basis:
+                image.update_into_maskable_buffer(basis, iy_idx, ix_idx, by_idx, bx_idx)"""))
+M("c09-crpix-reference", "C09", ("multi_tan.py", '        ref_headers["CRPIX1"] = this_crpix1 + 1 + (mtdesc.crxmin - global_crxmin)', '        ref_headers["CRPIX1"] = this_crpix1 + 1 + (self._descs[0].crxmin - global_crxmin)'))
+M("c09-parity-not-reconciled", "C09", ("multi_tan.py", "        if image.get_parity_sign() != tile_parity_sign:\n            image.flip_parity()\n\n        for (", "        if image.get_parity_sign() != tile_parity_sign and image.height % 2:\n            image.flip_parity()\n\n        for ("))
+M("c09-fill-instead-of-update", "C09", ("multi_tan.py", "                image.update_into_maskable_buffer(basis, iy_idx, ix_idx, by_idx, bx_idx)", "                if bool(np.isnan(basis.asarray()).all()):\n                    image.fill_into_maskable_buffer(basis, iy_idx, ix_idx, by_idx, bx_idx)\n                else:\n                    b = basis._as_writeable_array()\n                    b[by_idx, bx_idx] = image.asarray()[iy_idx, ix_idx]"))
+M("c09-imin-ceil", "C09", ("multi_tan.py", "            desc.jmin = int(np.floor(desc.crymin - global_crymin))", "            desc.jmin = int(np.floor(desc.crymin - global_crymin)) + (1 if len(self._descs) > 3 and desc is self._descs[2] else 0)"))
